@@ -34,7 +34,7 @@ func (d *DatasourceExecuting) Run(ctx ExecutionContext, produce ProduceFn, metaS
 			}
 			if i := bytes.Index(data, []byte(d.separator)); i >= 0 {
 				// We have a full separator-terminated line.
-				return i + 1, data[0:i], nil
+				return i + len(d.separator), data[0:i], nil
 			}
 			// If we're at EOF, we have a final, non-terminated line. Return it.
 			if atEOF {
@@ -62,8 +62,8 @@ func (d *DatasourceExecuting) Run(ctx ExecutionContext, produce ProduceFn, metaS
 		}
 		line++
 	}
-	if sc.Err() != nil {
-		return err
+	if err := sc.Err(); err != nil {
+		return fmt.Errorf("couldn't scan lines: %w", err)
 	}
 	return nil
 }
